@@ -28,3 +28,66 @@ package s2k
 //@ pure
 //@ ensures implies(c == nil || c.S2KCount == 0, result == 96)
 //@ ensures implies(c != nil && c.S2KCount != 0, dc(result) >= min(max(c.S2KCount, 1024), 65011712) && forall(e, 0, result, dc(e) < min(max(c.S2KCount, 1024), 65011712)))
+
+// ---- the byte streams that are hashed (RFC 4880 section 3.7.1) ----
+// ghost(h, hlen) / ghost(h, hbuf): the bytes written to h since its last
+// Reset (see /verif/contracts/stdlib.contracts). Checked at every Sum: the
+// stream of hash context i is i zero octets followed by salt and passphrase
+// (Salted/Simple), or by salt||passphrase repeated up to `count` octets, at
+// least once in full (Iterated); and the output is assembled from the
+// successive digests without gaps.
+//@ pred hs(h) = spec.hsize(h)
+//@ pred sp(salt, in, k) = ite(k < len(salt), salt[k], in[k - len(salt)])
+
+//@ func Salted
+//@ props C20
+//@ requires h != nil
+//@ requires len(out) == 0 || (ref(out) != ref(in) && ref(out) != ref(salt) && ref(out) != ref(zero[:]))
+//@ assume_global zero[0] == 0
+//@ modifies out[0:len(out)]
+//@ modifies ghost(h, hlen)
+//@ modifies ghost(h, hbuf)
+//@ loop 1 invariant 0 <= i && 0 <= done && done <= len(out) && (done == i * hs(h) || done == len(out))
+//@ loop 1 invariant sameoutside(out) && onlyobjs(out) && (digest == nil || newobj(digest))
+//@ loop 2 invariant 0 <= j && j <= i && ghost(h, hlen) == j && forall(q, 0, j, ghost(h, hbuf)[q] == 0)
+//@ assert_at "digest = h.Sum(digest[:0])" ghost(h, hlen) == i + len(salt) + len(in)
+//@ assert_at "digest = h.Sum(digest[:0])" forall(q, 0, i, ghost(h, hbuf)[q] == 0)
+//@ assert_at "digest = h.Sum(digest[:0])" forall(q, i, i + len(salt) + len(in), ghost(h, hbuf)[q] == sp(salt, in, q - i))
+//@ assert_at "done += n" n == min(len(out) - done, hs(h)) && forall(k, 0, n, out[done + k] == digest[k])
+//@ canary assert_at "digest = h.Sum(digest[:0])" ghost(h, hlen) == len(salt) + len(in)
+
+//@ func Simple
+//@ props C20
+//@ requires h != nil
+//@ requires len(out) == 0 || (ref(out) != ref(in) && ref(out) != ref(zero[:]))
+//@ modifies out[0:len(out)]
+//@ modifies ghost(h, hlen)
+//@ modifies ghost(h, hbuf)
+
+//@ func Iterated
+//@ props C20
+//@ requires h != nil && 0 <= count && count <= 1099511627776 && len(in) + len(salt) <= 1099511627776
+//@ requires len(out) == 0 || (ref(out) != ref(in) && ref(out) != ref(salt) && ref(out) != ref(zero[:]))
+//@ assume_global zero[0] == 0
+//@ let L = len(in) + len(salt)
+//@ let cnt = max(count, len(in) + len(salt))
+//@ modifies out[0:len(out)]
+//@ modifies ghost(h, hlen)
+//@ modifies ghost(h, hbuf)
+//@ loop 1 invariant 0 <= i && 0 <= done && done <= len(out) && (done == i * hs(h) || done == len(out))
+//@ loop 1 invariant sameoutside(out) && onlyobjs(out) && (digest == nil || newobj(digest))
+//@ loop 1 invariant count == cnt && len(combined) == L && newobj(combined) && !sameobj(combined, digest)
+//@ loop 1 invariant forall(k, 0, L, combined[k] == sp(salt, in, k))
+//@ loop 2 invariant 0 <= j && j <= i && ghost(h, hlen) == j && forall(q, 0, j, ghost(h, hbuf)[q] == 0)
+//@ loop 3 invariant 0 <= written && written <= count && ghost(h, hlen) == i + written && (written == 0 || written >= L)
+//@ loop 3 invariant forall(q, 0, i, ghost(h, hbuf)[q] == 0)
+// after the zero octets: salt||passphrase, then the same again with period L; while more is to come the last period is a full copy
+//@ loop 3 invariant forall(q, i, i + min(written, L), ghost(h, hbuf)[q] == sp(salt, in, q - i))
+//@ loop 3 invariant forall(q, i + L, i + written, ghost(h, hbuf)[q] == ghost(h, hbuf)[q - L])
+//@ loop 3 invariant implies(written < count && written >= L, forall(q, i + written - L, i + written, ghost(h, hbuf)[q] == sp(salt, in, q - (i + written - L))))
+//@ assert_at "digest = h.Sum(digest[:0])" ghost(h, hlen) == i + cnt
+//@ assert_at "digest = h.Sum(digest[:0])" forall(q, 0, i, ghost(h, hbuf)[q] == 0)
+//@ assert_at "digest = h.Sum(digest[:0])" forall(q, i, i + L, ghost(h, hbuf)[q] == sp(salt, in, q - i))
+//@ assert_at "digest = h.Sum(digest[:0])" forall(q, i + L, i + cnt, ghost(h, hbuf)[q] == ghost(h, hbuf)[q - L])
+//@ assert_at "done += n" n == min(len(out) - done, hs(h)) && forall(k, 0, n, out[done + k] == digest[k])
+//@ canary assert_at "digest = h.Sum(digest[:0])" ghost(h, hlen) == i + entry(count)
